@@ -89,6 +89,9 @@ class CallsMixin:
         if callee == 'sort::Search':
             return self.ho_sort_search(st, fr, ins, callee, args)
         con = self.prog.cs.funcs.get(callee)
+        if con is None and '[' in callee:
+            # one contract for every instance of a generic function: `func Name[*]`
+            con = self.prog.cs.funcs.get(callee.split('[', 1)[0] + '[*]')
         if con is not None and getattr(con, 'has_cases', False):
             con = None   # behaviours need not be exhaustive: callers see an opaque function
         oc = cx.contract.opts.get('opaque-callees', '')
